@@ -35,6 +35,8 @@ package p2ptls
 //@   assert at exit: ret1 == nil ==> exists k int :: 0 <= k && k < len(old(chain[0].Extensions)) && old(sameOID(chain[0].Extensions[k].Id, extensionID)) && (forall j int :: 0 <= j && j < k ==> !old(sameOID(chain[0].Extensions[j].Id, extensionID))) && content(keyExt.Value) == old(content(chain[0].Extensions[k].Value))
 //@   ensures len(chain) != 1 ==> ret1 != nil
 //@   ensures ret1 == nil ==> ret0 != nil && verifiesIn(chain[0], chain[0])
+// ... and is self-signed: its signature verifies under its own public key
+//@   ensures ret1 == nil ==> certSigOK(old(chain[0].PublicKey), old(chain[0].SignatureAlgorithm), old(content(chain[0].RawTBSCertificate)), old(content(chain[0].Signature)))
 //@   ensures ret1 == nil ==> exists k int :: 0 <= k && k < len(old(chain[0].Extensions)) && old(sameOID(chain[0].Extensions[k].Id, extensionID)) && (forall j int :: 0 <= j && j < k ==> !old(sameOID(chain[0].Extensions[j].Id, extensionID))) && bound(ret0, old(chain[0].PublicKey), old(content(chain[0].Extensions[k].Value)))
 
 // The verification callback of a TLS config made for a given remote peer: it accepts (returns nil)
